@@ -110,3 +110,81 @@ def replay_jacobian(p):
             err = float(np.abs(np.asarray(J) - Jn).max())
             print('%s.%s self=%s other=%s\nanalytic=\n%s\nnumeric=\n%s\nmax abs difference %g' % (p['class'], name, p['self'], p['other'], np.asarray(J), Jn, err))
             return err
+
+
+# ------------------------------------------------------------------------------------------------
+# C09: group laws against numpy homogeneous matrices (independent re-implementation)
+def hom(k, v):
+    v = np.asarray(v, dtype=np.float64)
+    if k == 'R2':
+        M = np.eye(3); M[:2, 2] = v; return M
+    if k == 'R3':
+        M = np.eye(4); M[:3, 3] = v; return M
+    if k == 'SE2':
+        c, s = math.cos(v[2]), math.sin(v[2])
+        return np.array([[c, -s, v[0]], [s, c, v[1]], [0, 0, 1.0]])
+    x, y, z, w = v[3:]
+    n = x * x + y * y + z * z + w * w
+    R = np.array([[w*w + x*x - y*y - z*z, 2*(x*y - z*w), 2*(x*z + y*w)],
+                  [2*(x*y + z*w), w*w - x*x + y*y - z*z, 2*(y*z - x*w)],
+                  [2*(x*z - y*w), 2*(y*z + x*w), w*w - x*x - y*y + z*z]]) / n
+    M = np.eye(4); M[:3, :3] = R; M[:3, 3] = v[:3]
+    return M
+
+
+def group_laws(seed, n_per, kinds=('R2', 'R3', 'SE2', 'SE3')):
+    rng = random.Random(seed)
+    fails, evals = [], 0
+
+    def chk(k, law, ok, data):
+        nonlocal evals
+        evals += 1
+        if not ok:
+            fails.append(dict(data, **{'class': k, 'law': law}))
+    for k in kinds:
+        for i in range(n_per):
+            fl = 'typical' if rng.random() < 0.6 else 'adversarial'
+            a, b, c = (safe_vals(rng, k, fl) for _ in range(3))
+            if k == 'SE3':   # the group laws are stated for unit quaternions
+                for v in (a, b, c):
+                    nn = math.sqrt(sum(x * x for x in v[3:]))
+                    v[3:] = [x / nn for x in v[3:]]
+            A, B, Cc = make_pose(k, a), make_pose(k, b), make_pose(k, c)
+            data = {'a': a, 'b': b, 'c': c}
+            sc = 1.0 + max(abs(x) for x in a + b + c) ** 2
+            tol = 1e-9 * sc
+            try:
+                chk(k, 'mat_oplus', np.allclose(hom(k, (A + B).to_array()), hom(k, A.to_array()) @ hom(k, B.to_array()), rtol=0, atol=tol), data)
+                chk(k, 'ominus_def', np.allclose(hom(k, (A - B).to_array()), hom(k, (B.inverse + A).to_array()), rtol=0, atol=tol), data)
+                I = type(A).identity()
+                chk(k, 'inverse_right', np.allclose(hom(k, (A + A.inverse).to_array()), hom(k, I.to_array()), rtol=0, atol=tol), data)
+                chk(k, 'inverse_left', np.allclose(hom(k, (A.inverse + A).to_array()), hom(k, I.to_array()), rtol=0, atol=tol), data)
+                chk(k, 'identity', np.allclose((A + I).to_array(), A.to_array(), rtol=0, atol=1e-12 * sc) and np.allclose((I + A).to_array(), A.to_array(), rtol=0, atol=1e-12 * sc), data)
+                chk(k, 'assoc', np.allclose(hom(k, ((A + B) + Cc).to_array()), hom(k, (A + (B + Cc)).to_array()), rtol=0, atol=tol * sc), data)
+                if k in ('SE2', 'SE3'):
+                    pk = POINT[k]
+                    x = safe_vals(rng, pk, fl)
+                    X = make_pose(pk, x)
+                    hx = np.array(list(x) + [1.0])
+                    chk(k, 'point_action', np.allclose((A + X).to_array(), (hom(k, A.to_array()) @ hx)[:-1], rtol=0, atol=tol), dict(data, x=x))
+                    chk(k, 'to_matrix', np.allclose(A.to_matrix(), hom(k, A.to_array()), rtol=0, atol=1e-12), data)
+                # boxplus
+                d = cp.gen_arr(rng, C[k], 'typical')
+                if k == 'SE3':
+                    rn = sum(x * x for x in d[3:])
+                    if rn <= 1:
+                        other = PoseSE3(d[:3], list(d[3:]) + [math.sqrt(1 - rn)])
+                    else:
+                        other = PoseSE3(d[:3], [0, 0, 0, 1.0])
+                elif k == 'SE2':
+                    other = PoseSE2(d[:2], d[2])
+                else:
+                    other = make_pose(k, d)
+                chk(k, 'boxplus_def', np.allclose((A + np.array(d)).to_array(), (A + other).to_array(), rtol=0, atol=1e-12 * sc), dict(data, d=d))
+            except Exception as ex:  # noqa
+                chk(k, 'raised %r' % (ex,), False, data)
+    return evals, fails
+
+
+from graphslam.pose.se2 import PoseSE2  # noqa: E402
+from graphslam.pose.se3 import PoseSE3  # noqa: E402
